@@ -48,6 +48,18 @@ class _Desugar(ast.NodeTransformer):
 
     # ---- statements lists
     def _block(self, stmts):
+        # `c = product(..)` consumed by the `for` that follows (and by nothing else): the call is the loop's iterable
+        stmts = list(stmts)
+        for i in range(len(stmts) - 1):
+            a, b = stmts[i], stmts[i + 1]
+            if (isinstance(a, ast.Assign) and len(a.targets) == 1 and isinstance(a.targets[0], ast.Name) and isinstance(a.value, ast.Call)
+                    and ast.unparse(a.value.func).split('.')[-1] == 'product' and isinstance(b, ast.For) and isinstance(b.iter, ast.Name)
+                    and b.iter.id == a.targets[0].id):
+                nm = a.targets[0].id
+                others = [x for s_ in stmts[i + 1:] for x in ast.walk(s_) if isinstance(x, ast.Name) and x.id == nm and x is not b.iter]
+                if not others:
+                    b.iter = a.value
+                    stmts[i] = ast.copy_location(ast.Pass(), a)
         out = []
         for st in stmts:
             r = self.visit(st)
